@@ -83,7 +83,8 @@ Section Envelope.
 
   (* Router.handleConn: the messages handed to Dispatch, in order, and how the
      loop ended.  A decoding error is "Temporary error, continue"; so is the
-     too-big error in the pinned code (fix_f04 = false). *)
+     too-big error in the code as it was at the pinned commit (fix_f04 = false;
+     since repaired in /repo, the correspondence compares with fix_f04 = true). *)
   Fixpoint handle_conn (fix_f04 : bool) (limit : N) (fuel : nat) (segs : list bytes)
     : list (bytes * V) * fin :=
     match fuel with
